@@ -31,7 +31,7 @@ def nontrivial(sc, trace, info):
     return acts >= 6 and (len(times) >= 2 or len(trace) >= 4)
 
 
-def run(ctx, families, monitor_ids, extra_scenarios=(), classify=None):
+def run(ctx, families, monitor_ids, extra_scenarios=(), classify=None, model=True):
     """families: list of (profile, n_quick, n_thorough, kwargs)"""
     scs, tags = [], []
     for name, sc in corpus(ctx.prop):
@@ -58,7 +58,7 @@ def run(ctx, families, monitor_ids, extra_scenarios=(), classify=None):
     for sc, (tr, _) in list(zip(scs, impl))[:2]:
         ctx.sample({'scenario': sc, 'impl_trace': tr})
     # --- correspondence with the Coq machine
-    bad = machine_corr.compare(scs, impl, ctx.casedir)
+    bad = machine_corr.compare(scs, impl, ctx.casedir) if model else []
     for (i, it, mt, note) in bad:
         ctx.mismatch(tags[i], scs[i], it, mt, note)
     # --- monitors on the implementation
@@ -108,24 +108,27 @@ def shrink(ctx, failure, monitor_ids):
     cur = json.loads(json.dumps(sc))
     if not fails(cur):
         return sc
-    changed = True
-    rounds = 0
-    while changed and rounds < 6:
-        changed = False
-        rounds += 1
+    budget = 400
+    progress = True
+    while progress and budget > 0:
+        progress = False
         for path in list(_blocks(cur)):
-            blk = _get(cur, path)
-            i = 0
-            while i < len(blk):
+            try:
+                blk = _get(cur, path)
+            except (IndexError, KeyError, TypeError):
+                continue
+            for i in range(len(blk)):
                 cand = json.loads(json.dumps(cur))
-                b2 = _get(cand, path)
-                del b2[i]
+                del _get(cand, path)[i]
+                budget -= 1
                 if fails(cand):
                     cur = cand
-                    blk = _get(cur, path)
-                    changed = True
-                else:
-                    i += 1
+                    progress = True
+                    break
+                if budget <= 0:
+                    break
+            if progress or budget <= 0:
+                break
     return cur
 
 
